@@ -6,7 +6,7 @@ Three kinds of cases:
           adjacency must hold exactly that link; also the other encodings the receiver documents
   static  openflow.spanning_tree._calc_spanning_tree() on an injected adjacency, judged by pvf.ref.graph.check_tree
   topo    discovery + spanning_tree over a physical directed multigraph of software switches under a virtual clock;
-          history of connect / disconnect / cut / restore / silence / advance / quiesce ops; at every quiescent point
+          history of connect / disconnect / flap / cut / restore / silence / advance / quiesce ops; at every quiescent point
           adjacency, LinkEvent stream, the calculated tree and the NO_FLOOD bits in the switches' own port tables
           (by simulated floods over the physical cables) are judged
 """
@@ -50,11 +50,10 @@ ASSUMPTIONS = [
 EXHAUSTIVE_SCOPE = {
   "quick": "static: every directed multigraph on <= 3 labelled switches with 2 cable slots per pair and each direction "
            "independently present (16 states per pair), and on 4 switches with 5 states per pair {none, one-way, link, one-way + "
-           "link, 2 links}; topo: every graph on 2 switches with 16 states per pair and on 3 switches with 7 states per pair "
-           "{none, one-way either direction, link, one-way + link either order, 2 links}, run to convergence through the real "
+           "link, 2 links}; topo: every graph on <= 3 switches with 16 states per pair, run to convergence through the real "
            "controller and switches",
   "thorough": "static: additionally 5 switches with 3 states per pair {none, link, one-way + link} and 4 switches with 7 states; "
-              "topo: every graph on <= 3 switches with 16 states per pair and on 4 switches with 5 states per pair",
+              "topo: additionally every graph on 4 switches with 5 states per pair",
 }
 
 _S = {}
@@ -404,32 +403,42 @@ def case_topo(c, out):
     def touches_tree(ends):
       return any(e in st_["tree_before"] for e in ends)
 
+    def do_connect(d):
+      if d not in connected:
+        if d in st_.setdefault("was_connected", set()):
+          st_.setdefault("reconnected", set()).add(d)
+          if not st_.get("reconnect"):
+            st_["reconnect"] = True
+            out.label("history:reconnect")
+        st_["was_connected"].add(d)
+        connected.add(d)
+        sync_dead()
+        net.connect(d)
+        sync_dead()
+        w.settle()
+
+    def do_disconnect(d):
+      if d in connected:
+        if any(dl[0] == d or dl[2] == d for dl in live_cables()
+               if touches_tree([(dl[0], dl[1]), (dl[2], dl[3])])):
+          removed_tree_link[0] = True
+        connected.discard(d)
+        net.disconnect(d)
+        sync_dead()
+        w.settle()
+
     for op in c["ops"]:
       o = op["o"]
       if o == "connect":
-        d = dpids[op["s"] % n]
-        if d not in connected:
-          if d in st_.setdefault("was_connected", set()):
-            st_.setdefault("reconnected", set()).add(d)
-            if not st_.get("reconnect"):
-              st_["reconnect"] = True
-              out.label("history:reconnect")
-          st_["was_connected"].add(d)
-          connected.add(d)
-          sync_dead()
-          net.connect(d)
-          sync_dead()
-          w.settle()
+        do_connect(dpids[op["s"] % n])
       elif o == "disconnect":
+        do_disconnect(dpids[op["s"] % n])
+      elif o == "flap":            # the control connection drops and comes back dt/8 s later
         d = dpids[op["s"] % n]
         if d in connected:
-          if any(dl[0] == d or dl[2] == d for dl in live_cables()
-                 if touches_tree([(dl[0], dl[1]), (dl[2], dl[3])])):
-            removed_tree_link[0] = True
-          connected.discard(d)
-          net.disconnect(d)
-          sync_dead()
-          w.settle()
+          do_disconnect(d)
+          w.advance(op["dt"] / 8.0)
+          do_connect(d)
       elif o in ("cut", "restore"):
         present = [dl for dl in dirs if dl is not None]
         if present:
@@ -481,7 +490,7 @@ def case_topo(c, out):
     if removed_tree_link[0]:
       out.label("history:removes-tree-link")
     kinds = set(op["o"] for op in c["ops"])
-    for k in ("disconnect", "cut", "cutboth", "silence", "restore", "restoreboth"):
+    for k in ("disconnect", "flap", "cut", "cutboth", "silence", "restore", "restoreboth"):
       if k in kinds:
         out.label("history:" + k)
     out.label("switches:%d" % n)
@@ -554,7 +563,7 @@ def _converge_ops(n):
 
 
 def enum_topo(tier):
-  plans = [(2, _PAIR16), (3, _PAIR7)] if tier == "quick" else [(2, _PAIR16), (3, _PAIR16), (4, _PAIR5)]
+  plans = [(2, _PAIR16), (3, _PAIR16)] if tier == "quick" else [(2, _PAIR16), (3, _PAIR16), (4, _PAIR5)]
   for n, states in plans:
     for cables in _graphs(n, states):
       if not cables:
@@ -644,6 +653,7 @@ def _topo(draw, nmax, maxops):
   op = st.one_of(
       st.fixed_dictionaries({"o": st.just("disconnect"), "s": sw}),
       st.fixed_dictionaries({"o": st.just("connect"), "s": sw}),
+      st.fixed_dictionaries({"o": st.just("flap"), "s": sw, "dt": st.sampled_from([0, 1, 8, 40, 88, 160])}),
       st.fixed_dictionaries({"o": st.just("cut"), "c": cab}),
       st.fixed_dictionaries({"o": st.just("cutboth"), "c": cab}),
       st.fixed_dictionaries({"o": st.just("cutboth"), "c": cab}),
@@ -683,7 +693,7 @@ def plan(tier):
             Enum("converge-small-graphs", lambda: enum_topo("quick"), shards=16),
             Hyp("probe-random", _probe, examples=400, shards=4),
             Hyp("static-random", lambda: _static(8), examples=2000, shards=4),
-            Hyp("histories", lambda: _topo(5, 8), examples=960, shards=16)]
+            Hyp("histories", lambda: _topo(5, 8), examples=1920, shards=16)]
   return [Enum("static-graphs", lambda: enum_static("thorough"), shards=16),
           Enum("probe-boundaries", lambda: enum_probe("thorough"), shards=8),
           Enum("converge-small-graphs", lambda: enum_topo("thorough"), shards=16),
